@@ -374,6 +374,52 @@ func runC06(w *World, r *Report) {
 		r.Check(rec, "C06.after-gate", "resolveInterruptCompletedTasks scans r.interruptAfterNodes", resolve.Pos(), "configured after-nodes are compared with every completed task", "the interrupt-after configuration is never consulted")
 	}
 
+	// one classification per completed task: a task recorded as nested interrupt / rerun request is not also
+	// recorded as an interrupt-after node in the same iteration (its node did not complete)
+	{
+		type cw struct {
+			in ssa.Instruction
+			p  *ssa.Parameter
+		}
+		var cws []cw
+		instrs(resolve, func(in ssa.Instruction) {
+			switch x := in.(type) {
+			case *ssa.MapUpdate:
+				if p, ok := x.Map.(*ssa.Parameter); ok {
+					cws = append(cws, cw{in, p})
+				}
+			case *ssa.Store:
+				if p, ok := x.Addr.(*ssa.Parameter); ok {
+					cws = append(cws, cw{in, p})
+				}
+			}
+		})
+		var outer *loopInfo
+		for _, li := range naturalLoops(resolve) {
+			li := li
+			if outer == nil || len(li.body) > len(outer.body) {
+				outer = &li
+			}
+		}
+		if len(cws) < 3 || outer == nil {
+			undecidedf("C06.after-gate: resolveInterruptCompletedTasks: %d classification writes found, outer loop %v", len(cws), outer != nil)
+		}
+		n := 0
+		for _, a := range cws {
+			for _, b := range cws {
+				if a.p == b.p {
+					continue
+				}
+				n++
+				b := b
+				ok, wit := pathQuery{fn: resolve, from: a.in, goal: func(in ssa.Instruction) bool { return in == b.in },
+					avoidEdge: func(_, to *ssa.BasicBlock) bool { return to == outer.header }}.exists()
+				r.Check(!ok, "C06.after-gate", fmt.Sprintf("resolveInterruptCompletedTasks: a task recorded in %s is not also recorded in %s", a.p.Name(), b.p.Name()), b.in.Pos(), "no path within one iteration joins the two records", "a task whose node did not complete (nested interrupt / rerun request) is also classified by the other arm: the interrupt is reported under two headings — e.g. AfterNodes lists a node that has not produced its output — and the resume both re-runs the node and treats it as done: "+wit)
+			}
+		}
+		_ = n
+	}
+
 	// ---- checkpoint-iff-interrupt
 	r.Rule("C06.checkpoint-iff-interrupt", "checkPointer.set only in the interrupt handlers; with an id it precedes the interruptError return; interrupt errors are built only in the handlers", 5)
 	set := w.Fn("compose", "checkPointer.set")
